@@ -21,12 +21,52 @@ __CPROVER_ensures(__CPROVER_return_value == (max_quantized_value > 0))
 __CPROVER_ensures(!__CPROVER_return_value ==> self->delta_ == __CPROVER_old(self->delta_))
 __CPROVER_assigns(self->delta_);
 
+static inline bool EncoderBuffer_Encode_u8_val(struct EncoderBuffer *b, uint8_t v) { return EncoderBuffer_Encode_u8(b, &v); } /* Encode<uint8_t>(const T&) called with a temporary */
+static inline bool AQTP_is_initialized(const struct AQTP *self) { return self->quantization_bits_ != -1; }   /* is_initialized(): quantization_bits_ != -1 */
+static inline void fvec_resize(struct fvec *v, size_t n) {
 #ifdef VERIF_CBMC
+  __CPROVER_assert(n <= v->cap, "stub: vector model capacity");
+#endif
+  for (size_t i = v->size; i < n; ++i) v->data[i] = 0.0f; v->size = n; }
+#ifdef VERIF_CBMC
+#include "core_helpers.h"
+#include "core_slice.c"
 #include "quant_slice.c"
 void h_enf_Quantizer_QuantizeFloat(void) { GHOSTS(); const struct Quantizer *q; float v; Quantizer_QuantizeFloat(q, v); HARNESS_END(); }
 void h_enf_Dequantizer_DequantizeFloat(void) { GHOSTS(); const struct Dequantizer *q; int32_t v; Dequantizer_DequantizeFloat(q, v); HARNESS_END(); }
 void h_enf_AQT_IsQuantizationValid(void) { GHOSTS(); int b; AQT_IsQuantizationValid(b); HARNESS_END(); }
 void h_enf_Dequantizer_Init(void) { GHOSTS(); struct Dequantizer *d; float r; int32_t m; Dequantizer_Init(d, r, m); HARNESS_END(); }
+#endif
+
+#ifdef VERIF_CBMC
+/* quant.params.rt (C04/C05/C12; BOUNDED: 1..3 components): the parameters of a quantized attribute travel as origin per component (float32 each), range
+ * (float32), bit count (one byte), in this order; what the decoder reads is bit-for-bit what the encoder had (any float bit pattern, any bit count 1..30),
+ * consumed == produced; a bit count outside 1..30 is refused. */
+void h_quant_params_rt(void) {
+  GHOSTS();
+  int nc, bits; uint32_t ob[3], rb; __CPROVER_assume(nc >= 1 && nc <= 3 && bits >= 0 && bits <= 255);
+#ifdef QP_NC
+  nc = QP_NC;
+#endif
+  float org[3]; for (int i = 0; i < 3; ++i) memcpy(&org[i], &ob[i], 4);
+  struct AQTP e; e.quantization_bits_ = bits; e.min_values_.data = org; e.min_values_.size = (size_t)nc; e.min_values_.cap = 3; memcpy(&e.range_, &rb, 4);
+  char store[32]; for (int i = 0; i < 32; ++i) store[i] = 0x55;
+  struct EncoderBuffer eb; eb.buffer_.data = store; eb.buffer_.size = 0; eb.buffer_.cap = 32; eb.bit_encoder_ = 0; eb.bit_encoder_reserved_bytes_ = 0; eb.encode_bit_sequence_size_ = false;
+  bool eok = AQT_EncodeParameters(&e, &eb);
+  __CPROVER_assert(eok && eb.buffer_.size == 4 * (size_t)nc + 5, "quant.params.rt.frozen_layout_length");
+  __CPROVER_assert((uint8_t)store[4 * nc + 4] == (uint8_t)bits, "quant.params.rt.bit_count_is_the_last_byte");
+  struct DecoderBuffer db; db.data_ = store; db.data_size_ = (int64_t)eb.buffer_.size; db.pos_ = 0; db.bit_mode_ = false; db.bitstream_version_ = DRACO_BITSTREAM_VERSION(2, 2);
+  float dorg[3] = {0, 0, 0}; struct AQTP d; d.quantization_bits_ = -1; d.min_values_.data = dorg; d.min_values_.size = 0; d.min_values_.cap = 3; d.range_ = 0.0f;
+  bool dok = AQT_DecodeParameters(&d, nc, &db);
+  __CPROVER_assert(dok == (bits >= 1 && bits <= 30), "quant.params.rt.accepted_iff_bit_count_1_to_30");
+  if (dok) {
+    uint32_t got_r; memcpy(&got_r, &d.range_, 4);
+    __CPROVER_assert(d.quantization_bits_ == bits && got_r == rb && d.min_values_.size == (size_t)nc && db.pos_ == (int64_t)eb.buffer_.size, "quant.params.rt.range_bits_and_position");
+    int k; __CPROVER_assume(k >= 0 && k < nc); uint32_t got_o; memcpy(&got_o, &dorg[k], 4);
+    __CPROVER_assert(got_o == ob[k], "quant.params.rt.origin_bit_exact");
+  }
+  HARNESS_END();
+}
 #endif
 
 #ifndef Q
